@@ -73,11 +73,12 @@ def cases(tier, seed):
                 yield {"k": "S3", "tpl": tpl, "target": target, "style": st}
     names = list(S5_FILES)
     for n in (1, 2, 3, 4, 5):
-        for perm in itertools.permutations(names, n):
-            if n == 5 and tier == "quick" and (sum(map(ord, "".join(perm))) + seed) % 4:
-                continue
-            for rec in (False, True):
-                yield {"k": "S5", "args": list(perm), "rec": rec}
+        for comb in itertools.combinations(names, n):
+            for variant in range(len(S5_VARIANTS)):
+                for rec in (False, True):
+                    yield {"k": "S5", "args": list(comb), "rec": rec, "variant": variant}
+                    if n == 2:
+                        yield {"k": "S5", "args": list(reversed(comb)), "rec": rec, "variant": variant}
     for rec_arg in (".", "sub", "sub/.."):
         yield {"k": "S5", "args": [rec_arg], "rec": True}
     toks = all_tokens()
@@ -103,44 +104,60 @@ S5_FILES = {
 }
 
 
+S5_VARIANTS = [{}, {"a.py": "m.py", "sub/b.c": "sub/n.c", "sub/c.html": "sub/o.html", "e.py": "q.py", "d.txt": "p.txt"},
+               {"a.py": "z.py", "sub/b.c": "sub/y.c", "sub/c.html": "sub/x.html", "e.py": "v.py", "d.txt": "w.txt"},
+               {"a.py": "k1.py", "sub/b.c": "sub/k2.c", "sub/c.html": "sub/k3.html", "e.py": "k0.py", "d.txt": "k4.txt"}]
+
+
 def ev_S5(c) -> R:
     """One invocation over several files with different prior information
-    (one of them shadowed by an existing .license sibling)."""
+    (one of them shadowed by an existing .license sibling, one already holding
+    the requested notice).  Arguments are relative to cwd = root, so the order
+    in which the tool walks its *set* of paths depends on the names only;
+    several naming variants make different processing orders occur."""
+    from ..cli import run_cli
+
     r = R()
+    ren = S5_VARIANTS[c.get("variant", 0)]
+    nm = lambda n: ren.get(n, n)
     root = fresh_dir("c07")
     recipe = {}
     for name, (text, _pc, _pl, sib) in S5_FILES.items():
-        recipe[name] = text
+        recipe[nm(name)] = text
         if sib:
-            recipe[name + ".license"] = sib
+            recipe[nm(name) + ".license"] = sib
     materialise(root, recipe)
     before = read_tree(root)
     argv = ["--copyright", "Jane Doe", "--license", "MIT", "--year", "2020"] + (["--recursive"] if c["rec"] else [])
-    res = annot.annotate(root, argv, [root / a for a in c["args"]])
+    args = [a if a in (".", "sub", "sub/..") else nm(a) for a in c["args"]]
+    res = run_cli(["annotate", *argv, *args], cwd=str(root))
     touched = set(c["args"])
     if c["args"] == ["."] or c["args"] == ["sub/.."]:
         touched = set(S5_FILES)
     elif c["args"] == ["sub"]:
         touched = {n for n in S5_FILES if n.startswith("sub/")}
-    label = f"annotate {'-r ' if c['rec'] else ''}{c['args']}"
+    label = f"annotate {'-r ' if c['rec'] else ''}{args}"
     if res.exc or res.exit_code != 0:
         r.violation(f"S5-failed|rec={c['rec']}", f"{label}: {res.brief()}")
         return r
     after = read_tree(root)
+    order = [l.rsplit(" ", 1)[-1] for l in res.stdout.splitlines() if l.startswith("Successfully")]
     for name, (text, pc, pl, sib) in S5_FILES.items():
-        info = annot.lint_file_info(root, name)
+        info = annot.lint_file_info(root, nm(name))
         want_c, want_l = list(pc), list(pl)
         if name in touched:
             want_c = sorted(set(want_c) | {"SPDX-FileCopyrightText: 2020 Jane Doe"})
             want_l = sorted(set(want_l) | {"MIT"})
         if info is None or sorted(info[0]) != sorted(want_c) or sorted(info[1]) != sorted(want_l):
             r.violation(f"S5-readback|rec={c['rec']}|{name}|{'named' if name in touched else 'not-named'}",
-                        f"{label}: {name} reads back {info}, expected copyrights {sorted(want_c)} expressions {sorted(want_l)}")
-        if sib and after.get(name) != before.get(name):
-            r.violation(f"S5-file-with-sibling-changed|rec={c['rec']}", f"{label}: {name} has a .license sibling but the file itself was modified")
+                        f"{label} (processed in the order {order}): {nm(name)} reads back {info}, expected copyrights {sorted(want_c)} expressions {sorted(want_l)}")
+        if sib and after.get(nm(name)) != before.get(nm(name)):
+            r.violation(f"S5-file-with-sibling-changed|rec={c['rec']}", f"{label}: {nm(name)} has a .license sibling but the file itself was modified")
     r.outcome = "exit0"
     r.evals = 1 + len(S5_FILES)
     r.tags.append("S5")
+    if len(order) >= 2:
+        r.notes.append("S5-first-processed:" + [k for k in S5_FILES if nm(k) in order[0] or order[0].endswith(nm(k))][0] if any(order[0].endswith(nm(k)) or order[0].endswith(nm(k) + ".license") for k in S5_FILES) else "S5-first:?")
     return r
 
 
